@@ -48,10 +48,31 @@ pub fn verdict(sb: &Sandbox, files: &Files, cfg: (u64, u64, u64)) -> (Verdict, u
     }
     // separate: dependency order if one exists, otherwise any order (a cyclic or incomplete
     // project has none; every order must fail)
-    let layout = Layout::scan(files);
+    let mut layout = Layout::scan(files);
     let mut op = Prng::new(order);
     let topo = layout.topo(&mut op);
     let has_topo = topo.is_some();
+    // for every second order the separate pipeline is handed the files of multi-file packages
+    // under another spelling: copies that all have the same base name, each in a directory of
+    // its own (`--input` takes any paths; what a file may name depends on its own imports, not
+    // on how its path is spelled)
+    if order % 2 == 1 {
+        for pk in layout.pkgs.values_mut() {
+            if pk.files.len() >= 2 {
+                let mut renamed = Vec::new();
+                for (i, f) in pk.files.iter().enumerate() {
+                    if let Some(b) = files.get(f) {
+                        let np = format!("zzalt/{}/{}/unit.gom", pk.name, (b'a' + i as u8) as char);
+                        sb.write(&np, b);
+                        renamed.push(np);
+                    }
+                }
+                if renamed.len() == pk.files.len() {
+                    pk.files = renamed;
+                }
+            }
+        }
+    }
     let build_order = topo.unwrap_or_else(|| {
         let mut names: Vec<String> = layout.pkgs.keys().cloned().collect();
         op.shuffle(&mut names);
@@ -72,7 +93,8 @@ pub fn verdict(sb: &Sandbox, files: &Files, cfg: (u64, u64, u64)) -> (Verdict, u
     .to_string();
     // without a dependency order (cycle, missing package) the build order is the simulator's
     // arbitrary choice, so *where* the separate build fails is not the compiler's nondeterminism
-    let separate_where = if has_topo { sep.failure.map(|(s, m)| format!("{s}: {m}")).unwrap_or_default() } else { String::new() };
+    // (nor is a message that quotes a path, when the paths were respelled)
+    let separate_where = if has_topo && order % 2 == 0 { sep.failure.map(|(s, m)| format!("{s}: {m}")).unwrap_or_default() } else { String::new() };
     (Verdict { whole, whole_diags, separate, separate_where }, procs)
 }
 
@@ -143,6 +165,15 @@ fn store_configs(sb: &Sandbox, files: &Files, cfg: (u64, u64, u64)) -> (Vec<(Str
         other => out.push(("legal-store-rejected".to_string(), format!("C16: `build` of {pn} fails although the genuine {d}.interface is found first on the interface path: {}", match other { Exit::Err(m) => sb.normalise(m).chars().take(200).collect::<String>(), o => o.class().to_string() }))),
     }
     (out, procs, true)
+}
+
+/// Verdicts of one project under two discovery orders agree (where the separate build fails is
+/// compared only when both runs report it).
+fn same_verdict(a: &Verdict, b: &Verdict) -> bool {
+    a.whole == b.whole
+        && a.whole_diags == b.whole_diags
+        && a.separate == b.separate
+        && (a.separate_where.is_empty() || b.separate_where.is_empty() || a.separate_where == b.separate_where)
 }
 
 struct CaseResult {
@@ -217,7 +248,7 @@ fn check_case(sb: &Sandbox, opts: &Opts, idx: usize, orders: usize, forced: Opti
         match &base_twin {
             None => base_twin = Some(vt.clone()),
             Some(b) => {
-                if *b != vt {
+                if !same_verdict(b, &vt) {
                     r.violations.push(mk("order-dependent-verdict", "both", format!("C16: legal project (twin of: {desc}): verdict/diagnostics depend on the discovery order")));
                 }
             }
@@ -225,7 +256,7 @@ fn check_case(sb: &Sandbox, opts: &Opts, idx: usize, orders: usize, forced: Opti
         match &base_bad {
             None => base_bad = Some(vb.clone()),
             Some(b) => {
-                if *b != vb {
+                if !same_verdict(b, &vb) {
                     r.violations.push(mk("order-dependent-verdict", "both", format!("C16: illegal project ({desc}): verdict/diagnostics depend on the discovery order")));
                 }
             }
